@@ -60,11 +60,12 @@ def snap_model(m):
         rank_lists=[[[p.studentID, p.projectID] for p in row] for row in m.rank_lists])
 
 
-def import_snapshot(text, na, twopl):
-    """The instance the solver works on: through the public route Solver(args).model."""
+def import_snapshot(text, na, twopl, extra=()):
+    """The instance the solver works on: through the public route Solver(args).model.  `extra`: further valid options
+    (criteria, -pc, -bf); none of them may influence how the file is read."""
     from matchingproblems.solver.solver import Solver
     with tmpfile(text) as path:
-        s = Solver(['-f', path, '-na', str(na)] + (['-twopl'] if twopl else []))
+        s = Solver(['-f', path, '-na', str(na)] + (['-twopl'] if twopl else []) + list(extra))
     return snap_model(s.model)
 
 
